@@ -170,7 +170,7 @@ impl Prop for SetClear {
         Ok(Case { i, off, op, date, local_now })
     }
     fn check(c: &Case, cx: &mut Cx) -> Verdict {
-        if !c.i.valid() || c.off.abs() > 86_399 || (c.date && c.off != 0) {
+        if !c.i.valid() || c.off.unsigned_abs() > 86_399 || (c.date && c.off != 0) {
             return Verdict::Skip("malformed case");
         }
         let near_end = c.i.day < cal::MIN_DAY + 3 || c.i.day > cal::MAX_DAY - 3;
@@ -478,7 +478,7 @@ impl Prop for Chain {
         Ok(ChainCase { i, off, ops })
     }
     fn check(c: &ChainCase, cx: &mut Cx) -> Verdict {
-        if !c.i.valid() || c.off.abs() > 86_399 || c.ops.len() > 8 || c.i.day < cal::MIN_DAY + 3 || c.i.day > cal::MAX_DAY - 3 {
+        if !c.i.valid() || c.off.unsigned_abs() > 86_399 || c.ops.len() > 8 || c.i.day < cal::MIN_DAY + 3 || c.i.day > cal::MAX_DAY - 3 {
             return Verdict::Skip("malformed case");
         }
         let mut d = match catch(|| mk_dt_off_any(c.i.i(), c.off)) {
